@@ -27,6 +27,9 @@ enum Style {
     Malformed { value: Vec<u8>, what: &'static str },
     /// an incomplete frame followed by FIN (abrupt termination of the request stream)
     Truncated { bytes: Vec<u8>, what: String },
+    /// an incomplete frame is pending on the request stream when the peer closes the QUIC
+    /// connection: the close, with its code and reason, is what ended the session
+    PartialThenQuicClose { partial: Vec<u8>, what: &'static str, code: u64, reason: Vec<u8> },
 }
 
 fn capsule_bytes(code: u32, reason: &[u8], prelude: u8) -> Vec<u8> {
@@ -47,7 +50,7 @@ fn capsule_bytes(code: u32, reason: &[u8], prelude: u8) -> Vec<u8> {
 fn style_class(s: &Style) -> String {
     match s {
         Style::Capsule { code, reason, prelude } => format!(
-            "capsule|code={}|reason={}|prelude={prelude}",
+            "capsule|code={}|reason={}|prelude={}{}",
             match *code {
                 0 => "0",
                 1..=0xff => "small",
@@ -60,8 +63,11 @@ fn style_class(s: &Style) -> String {
                 1023 => "1023",
                 1024 => "1024",
                 _ => "mid",
-            }
+            },
+            prelude & 7,
+            if prelude & 8 != 0 { "|in-pieces" } else { "" }
         ),
+        Style::PartialThenQuicClose { partial, what, .. } => format!("partial-frame-then-quic-close|{what}|{}B", partial.len()),
         Style::Fin => "fin".into(),
         Style::QuicClose { code, reason } => format!("quic-close|code={}B|reason={}", rv::size(*code), if reason.is_empty() { "0" } else if std::str::from_utf8(reason).is_ok() { "utf8" } else { "binary" }),
         Style::Reset { .. } => "reset".into(),
@@ -103,7 +109,15 @@ async fn terminate(live: &mut Live, style: &Style) -> Result<(), String> {
         Style::Capsule { code, reason, prelude } => {
             let bytes = capsule_bytes(*code, reason, *prelude);
             let mut s = live.sess_send.take().ok_or("session stream taken")?;
-            s.write_all(&bytes).await.map_err(|e| e.to_string())?;
+            if prelude & 8 != 0 {
+                // the capsule arrives in three pieces with an unrelated connection event (a GREASE
+                // unidirectional stream, invisible to the application) after each of the first two
+                let n = bytes.len();
+                let cuts = [(*code as usize % 5 + 1).min(n - 1), (n / 2).max(2).min(n - 1)];
+                scen::write_cut(&live.peer, &mut s, &bytes, &cuts, scen::Event::GreaseUni, live.sid, ms(15)).await?;
+            } else {
+                s.write_all(&bytes).await.map_err(|e| e.to_string())?;
+            }
             live.peer.keep_s(s);
         }
         Style::Fin => {
@@ -121,6 +135,13 @@ async fn terminate(live: &mut Live, style: &Style) -> Result<(), String> {
             let mut s = live.sess_send.take().ok_or("session stream taken")?;
             s.write_all(&h3::frame(h3::FRAME_DATA, &capsule::encode(capsule::CLOSE_WEBTRANSPORT_SESSION, value))).await.map_err(|e| e.to_string())?;
             live.peer.keep_s(s);
+        }
+        Style::PartialThenQuicClose { partial, code, reason, .. } => {
+            let mut s = live.sess_send.take().ok_or("session stream taken")?;
+            s.write_all(partial).await.map_err(|e| e.to_string())?;
+            live.peer.keep_s(s);
+            tokio::time::sleep(ms(40)).await;
+            live.peer.close(*code, reason);
         }
         Style::Truncated { bytes, .. } => {
             let mut s = live.sess_send.take().ok_or("session stream taken")?;
@@ -190,8 +211,12 @@ async fn run_case(role: Role, style: Style, state: State, rep: &mut Report) {
     if state == State::Coalesced {
         // already on the wire
     } else if let Err(e) = terminate(&mut live, &style).await {
-        rep.inconclusive(format!("{cls}: raw side: {e}"));
-        return;
+        // the endpoint under test closing the connection half way through the peer's termination
+        // sequence is an observation to judge, not a harness problem
+        if !e.contains("closed by peer") {
+            rep.inconclusive(format!("{cls}: raw side: {e}"));
+            return;
+        }
     }
     let mut observed: Vec<(&'static str, Seen)> = vec![];
     if let (Some(a), Some(b), Some(c)) = (h1, h2, h3_) {
@@ -242,7 +267,7 @@ async fn run_case(role: Role, style: Style, state: State, rep: &mut Report) {
     let want: Option<(u64, Vec<u8>)> = match &style {
         Style::Capsule { code, reason, .. } => Some((*code as u64, reason.clone())),
         Style::Fin => Some((0, vec![])),
-        Style::QuicClose { code, reason } => Some((*code, reason.clone())),
+        Style::QuicClose { code, reason } | Style::PartialThenQuicClose { code, reason, .. } => Some((*code, reason.clone())),
         Style::Reset { .. } | Style::Malformed { .. } | Style::Truncated { .. } => None,
     };
     let kind = match &style {
@@ -252,6 +277,7 @@ async fn run_case(role: Role, style: Style, state: State, rep: &mut Report) {
         Style::Reset { .. } => "reset",
         Style::Malformed { .. } => "malformed",
         Style::Truncated { .. } => "truncated",
+        Style::PartialThenQuicClose { .. } => "partial-then-quic-close",
     };
     for (what, seen) in &observed {
         let call = what.split(' ').nth(1).unwrap_or("");
@@ -369,6 +395,26 @@ pub fn run(args: &Args) -> Report {
             _ => vec![0xff, 0xfe, 0x00, 0x80],
         };
         styles.push(Style::QuicClose { code, reason });
+    }
+    for (i, c) in codes32.iter().enumerate().take(4) {
+        styles.push(Style::Capsule { code: *c, reason: reasons[(i + 2) % reasons.len()].clone(), prelude: 8 | (i as u8 % 8) });
+    }
+    let whole = h3::frame(h3::FRAME_DATA, &capsule::close(5, b"never completed"));
+    let partials: Vec<(Vec<u8>, &'static str)> = vec![
+        (whole[..1].to_vec(), "data-type-only"),
+        (whole[..2].to_vec(), "data-header"),
+        (whole[..whole.len() / 2].to_vec(), "half-capsule"),
+        (whole[..whole.len() - 1].to_vec(), "all-but-one"),
+        (h3::frame_declared(h3::grease(2), 40, b"gr"), "partial-grease"),
+        (h3::frame_declared(h3::FRAME_GOAWAY, 40, b"un"), "partial-unknown"),
+        (vec![0x40], "half-type-varint"),
+    ];
+    // which select! branch of the driver sees the loss first is a race: several attempts each
+    for rep_i in 0..(if args.thorough { 6 } else { 2 }) {
+        for (k, (p, what)) in partials.iter().enumerate() {
+            let code = [rv::MAX, 0, 0x3fff_ffff, 77][(k + rep_i) % 4];
+            styles.push(Style::PartialThenQuicClose { partial: p.clone(), what, code, reason: if k % 2 == 0 { vec![0xff, 0x00, 0xfe] } else { b"quic close over a partial frame".to_vec() } });
+        }
     }
     styles.push(Style::Reset { code: 0 });
     styles.push(Style::Reset { code: 0x10c });
